@@ -4,7 +4,11 @@ from vlib import core, kexec, pool, net, refksi as R, refserver as S, gen
 
 LEVEL = 'exploration'
 SCHEMES = {'ksi': ('http', 'http'), 'ksi+http': ('http', 'http'), 'ksi+https': ('http', 'https'), 'ksi+tcp': ('tcp', None), 'file': ('file', None),
-           'http': ('http', None), 'https': ('http', None), 'ftp': ('http', None), 'ksi+udp': ('http', None), 'foo': ('http', None)}
+           'http': ('http', None), 'https': ('http', None), 'ftp': ('http', None), 'ksi+udp': ('http', None), 'foo': ('http', None),
+           # unknown schemes next to the known ones: proper prefixes and one-letter extensions (the map is exact, not prefix based)
+           'k': ('http', None), 'ks': ('http', None), 'ksi+': ('http', None), 'ksi+h': ('http', None), 'ksi+htt': ('http', None), 'ksi+t': ('http', None),
+           'ksi+tc': ('http', None), 'f': ('http', None), 'fil': ('http', None), 'ksix': ('http', None), 'ksi+tcpx': ('http', None), 'files': ('http', None),
+           'ksi+httpss': ('http', None)}
 HOSTS = ['agg.example', 'a', 'x-1.sub.example.org', '10.1.2.3', '127.0.0.1', '[::1]', '[2001:db8::1:2]']
 PORTS = [None, 1, 80, 8080, 65535]
 PATHS = [None, '/', '/gt-signingservice', '/a/b.c/d-e_f']
@@ -205,8 +209,8 @@ def one_case(sess, r, rng, ci, canon, spelled, uri, transport, repl, host, port,
         sess.cmd('async_free 0')
         free_ctx(sess)
         return
-    if is_async and canon in ('ftp', 'foo', 'ksi+udp', 'http', 'https'):
-        if canon in ('ftp', 'foo', 'ksi+udp') and setrc == 0:
+    if is_async and repl is None and transport == 'http':
+        if canon not in ('http', 'https') and setrc == 0:
             r.viol('async:unknown-scheme-accepted', 'asynchronous service accepted scheme %s' % spelled, replay)
         if setrc != 0:
             sess.cmd('async_free 0')
